@@ -93,7 +93,7 @@ def _devcfg(u, n):
     for dc in n.device_configurations:
         specs = []
         for s in dc.sharding_specs:
-            specs.append((u.idx(s.value), repr(s.device_indices), repr(getattr(s, "sharded_dims", None))))
+            specs.append((u.idx(s.value), repr(s.device), repr(s.index_to_device_group_map), repr(s.sharded_dims)))
         out.append((getattr(dc.configuration, "name", None), id(dc.configuration), dc.pipeline_stage, tuple(specs)))
     return tuple(out)
 
